@@ -3,20 +3,24 @@
 // Keys: a small pool of Rabin keys is generated once per process (TMCG_SecretKey(name, email, bits, false), coins from
 //   VERIF_SEED): 448 bit (quick and thorough), 672 and 704 bit (thorough).  Players of a cell use consecutive pool keys.
 // Enumerated completely (nothing is sampled):
-//   --family small : k in 1..3, w in 1..3, every type 0..2^w-1
-//   --family wide  : k = 2, w = 10, every type 0..1023 (thorough only)
+//   --family small : k in 1..3, w in 1..3, every type 0..2^w-1 (thorough, 448-bit keys: k in 1..4, chains one step longer)
+//   --family wide  : k = 2, w = 10, every type 0..1023 (448-bit keys; thorough also 704 bit)
+//   --family session: k in {2,3}, w = 2, chains 0..1 / private 0, every opening in the real two-thread duplex session
 //   creation : CreateOpenCard followed by a chain of (CreateCardSecret(index = masking player), MaskCard) steps, chain in
 //              k^len, len 0..2 (wide: 0..1); or CreatePrivateCard(index = creator p, p in 0..k-1) followed by a chain of
 //              length 0..1 (wide: 0)
 //   TimingAttackProtection of the MaskCard steps on / off (only where a public MaskCard step exists)
 //   opener   : every player o in turn: TMCG_SelfCardSecret for o, and for every other player j the real interactive proof
 //              TMCG_ProveCardSecret (j's secret key) <-> TMCG_VerifyCardSecret (o, j's public key) over an in-memory
-//              duplex stream (wire::run2; one session of two threads per card: all provers on one side, all openers
-//              on the other, in the same fixed order), then TMCG_TypeOfCard.
+//              stream, then TMCG_TypeOfCard.  The interaction is executed single-threaded with the verifier's challenge
+//              bits fixed in advance through coin steering and checked afterwards against what the verifier really sent
+//              (see run_cell); whenever that run is not a faithful, accepting execution the card is re-run in a real
+//              duplex session (wire::run2, two threads: all provers on one side, all openers on the other), which decides.
+//              --threads forces the duplex session for every card.
 // Oracle: every honest proof verifies and TMCG_TypeOfCard == T.  Independently, the harness decrypts the card with the
 //   secret primes (Legendre symbols) and requires the same T (this also pins down a masking error when the proof path and
 //   the type computation would agree with each other on a wrong type).
-// The zero-knowledge proofs use security level 2 (cut-and-choose rounds); completeness is exact (error < 2^-400: the prover
+// The zero-knowledge proofs use security level 4 (cut-and-choose rounds); completeness is exact (error < 2^-400: the prover
 //   asserts s != 1 for a random 448-bit s), soundness is not needed here.
 // One evaluation = one opening (one opener, all contributions).  Non-trivial: the card was masked at least once.
 // The "missing contribution" clause of C01 concerns the discrete-log encoding only (see c01_vtmf.cc).
@@ -27,6 +31,7 @@ using namespace drv;
 using namespace game;
 
 static Report *R;
+static bool force_threads = false;
 static uint64_t printed_viols = 0;
 static void viol(const std::string &key, const std::string &what, const std::string &cid)
 {
@@ -101,11 +106,12 @@ static void run_cell(const KeyPool &pool, size_t first_key, unsigned long keybit
 	G.setup(pool, which, seed ^ hash_str(cid));
 	std::vector<SchindelhauerTMCG *> tm;
 	for (size_t j = 0; j < k; j++)
-		tm.push_back(new SchindelhauerTMCG(2, k, w));
+		tm.push_back(new SchindelhauerTMCG(4, k, w));
 	size_t ntypes = (size_t)1 << w;
 	std::vector<Plan> pls;
 	plans(k, Lopen, Lpriv, true, pls);
 	uint64_t openings = 0;
+	uint64_t chal_state = seed ^ hash_str(cid) ^ 0x5bd1e995;   // the verifier's challenge bits of the single-threaded runs
 	for (size_t pi = 0; pi < pls.size(); pi++)
 	{
 		const Plan &pl = pls[pi];
@@ -156,6 +162,79 @@ static void run_cell(const KeyPool &pool, size_t first_key, unsigned long keybit
 				size_t ref = G.ref_type(c);
 				if (ref != T)
 					viol("c01/qr/card_encodes_wrong_type", ctx + ": decryption with the secret primes gives type " + str(ref), cid);
+				// Fast path (no threads): the verifier's messages are only its security level and its challenge bits, and
+				// these are coin draws the harness owns.  The harness fixes the challenge bits in advance, lets the prover
+				// run to completion against them, then lets the verifier run on the prover's transcript with its one-byte
+				// coin draws steered to the same bits, and finally checks that what the verifier actually sent is
+				// byte-for-byte what the prover was given.  Only then is the run a faithful execution of the interactive
+				// protocol; in every other case (mismatch, rejection, exception) the card is re-run in a real two-thread
+				// duplex session below, which alone decides.
+				bool need_session = force_threads;
+				std::vector<size_t> fast_got(k, ntypes + 7);
+				for (size_t o = 0; o < k && !need_session; o++)
+				{
+					try
+					{
+						TMCG_CardSecret csx(k, w);
+						G.as(o);
+						tm[o]->TMCG_SelfCardSecret(c, csx, *G.sec[o], o);
+						for (size_t j = 0; j < k && !need_session; j++)
+						{
+							if (j == o)
+								continue;
+							std::vector<unsigned char> bits;
+							std::string feed;
+							for (size_t wi = 0; wi < w; wi++)
+							{
+								feed += str(tm[o]->TMCG_SecurityLevel) + "\n";
+								for (unsigned long r = 0; r < tm[o]->TMCG_SecurityLevel; r++)
+								{
+									unsigned char bit = (unsigned char)(mcenv::splitmix(chal_state) & 1);
+									bits.push_back(bit);
+									feed += bit ? "1\n" : "0\n";
+								}
+							}
+							std::istringstream pin(feed);
+							std::ostringstream pout, vout;
+							G.as(j);
+							tm[j]->TMCG_ProveCardSecret(c, *G.sec[j], j, pin, pout);
+							size_t used = 0;
+							G.coins[o].steer = [&](unsigned char *buf, size_t len, int, uint64_t) -> bool {
+								if (len != 1 || used >= bits.size())
+									return false;
+								buf[0] = bits[used++];
+								return true;
+							};
+							G.as(o);
+							std::istringstream vin(pout.str());
+							bool ok = tm[o]->TMCG_VerifyCardSecret(c, csx, *G.pub[j], j, vin, vout);
+							G.coins[o].steer = nullptr;
+							if (!ok || used != bits.size() || vout.str() != feed)
+								need_session = true;
+						}
+						if (!need_session)
+							fast_got[o] = tm[o]->TMCG_TypeOfCard(csx);
+					}
+					catch (std::exception &e)
+					{
+						need_session = true;
+					}
+					G.coins[o].steer = nullptr;
+					mcenv::cur = nullptr;
+				}
+				if (!need_session)
+				{
+					for (size_t o = 0; o < k; o++)
+					{
+						R->ok(masked);
+						openings++;
+						if (fast_got[o] != T)
+							viol("c01/qr/full_opening_wrong_type", ctx + " opener=" + str(o) + " TMCG_TypeOfCard=" + str(fast_got[o]) + " (reference decryption " + str(ref) + ")", cid);
+					}
+					R->counters["cards_opened_single_threaded"]++;
+					continue;
+				}
+				R->counters["cards_opened_in_threaded_session"]++;
 				// One duplex session per card: the "provers" thread plays TMCG_ProveCardSecret of player j for every
 				// (opener o, j != o) in a fixed order, the "openers" thread plays TMCG_SelfCardSecret / TMCG_VerifyCardSecret /
 				// TMCG_TypeOfCard of every opener o in the same order.  Every player keeps its own coin source.
@@ -235,7 +314,7 @@ static void run_cell(const KeyPool &pool, size_t first_key, unsigned long keybit
 	for (size_t j = 0; j < tm.size(); j++)
 		delete tm[j];
 	R->counters["openings"] += openings;
-	R->sample(cid, str(keybits) + "-bit Rabin keys, " + (only_plan >= 0 ? "plan " + pls[only_plan].str() : str(pls.size()) + " creation plans") + " x " + str(ntypes) + " types x every opener, all proofs interactive (security level 2)");
+	R->sample(cid, str(keybits) + "-bit Rabin keys, " + (only_plan >= 0 ? "plan " + pls[only_plan].str() : str(pls.size()) + " creation plans") + " x " + str(ntypes) + " types x every opener, all proofs interactive (security level 4)");
 }
 
 int main(int argc, char **argv)
@@ -248,6 +327,7 @@ int main(int argc, char **argv)
 	MuteCerr mute;
 	uint64_t seed = mcenv::env_seed();
 	std::string family = A.get("family", "small");
+	force_threads = A.has("threads");
 	bool thorough = (A.tier == "thorough") && !A.has("quickbounds");   // --quickbounds: quick alphabet inside a thorough run (ASan pass)
 
 	KeyPool pool;
@@ -256,12 +336,12 @@ int main(int argc, char **argv)
 	if (thorough)
 		sizes.push_back(672), sizes.push_back(704);
 	for (size_t i = 0; i < sizes.size(); i++)
-		pool.add(sizes[i], 3, seed);
+		pool.add(sizes[i], 4, seed);
 
 	if (family == "small")
 	{
 		for (size_t si = 0; si < sizes.size(); si++)
-			for (size_t k = 1; k <= 3; k++)
+			for (size_t k = 1; k <= ((thorough && si == 0) ? 4u : 3u); k++)
 				for (size_t w = 1; w <= 3; w++)
 				{
 					std::string cid = "qr:small:rabin" + str(sizes[si]) + ":k" + str(k) + ":w" + str(w);
@@ -271,8 +351,25 @@ int main(int argc, char **argv)
 						goto done;
 					printf("{\"t\":\"at\",\"case\":\"%s\"}\n", cid.c_str());
 					fflush(stdout);
-					run_cell(pool, 3 * si, sizes[si], k, w, 2, 1, cid, seed);
+					bool deep = thorough && si == 0;   // 448-bit keys in thorough: k <= 4, chains <= 3 (open) / <= 2 (private)
+					run_cell(pool, 4 * si, sizes[si], k, w, deep ? 3 : 2, deep ? 2 : 1, cid, seed);
 				}
+	}
+	else if (family == "session")
+	{
+		// the same openings through the real two-thread duplex session only (small: thread hand-offs are slow on a busy machine)
+		force_threads = true;
+		for (size_t k = 2; k <= 3; k++)
+		{
+			std::string cid = "qr:session:rabin448:k" + str(k) + ":w2";
+			if (!R->mine() || !R->selected(cid))
+				continue;
+			if (R->out_of_time())
+				goto done;
+			printf("{\"t\":\"at\",\"case\":\"%s\"}\n", cid.c_str());
+			fflush(stdout);
+			run_cell(pool, 0, 448, k, 2, 1, 0, cid, seed);
+		}
 	}
 	else if (family == "wide")
 	{
@@ -289,7 +386,7 @@ int main(int argc, char **argv)
 				goto done;
 			printf("{\"t\":\"at\",\"case\":\"%s\"}\n", cid.c_str());
 			fflush(stdout);
-			run_cell(pool, 3 * si, sizes[si], 2, 10, 1, 0, cid, seed, plan);
+			run_cell(pool, 4 * si, sizes[si], 2, 10, 1, 0, cid, seed, plan);
 		}
 	}
 	else
@@ -299,7 +396,7 @@ int main(int argc, char **argv)
 	}
 done:
 	mcenv::cur = nullptr;
-	rep.bound = family == "small" ? "k<=3, w<=3, chains<=2 (open) / <=1 (private)" : "k=2, w=10, chains<=1 (open) / 0 (private)";
+	rep.bound = family == "small" ? (thorough ? "448 bit: k<=4, w<=3, chains<=3 (open) / <=2 (private); 672/704 bit: k<=3, chains<=2/1" : "k<=3, w<=3, chains<=2 (open) / <=1 (private)") : family == "session" ? "k in {2,3}, w=2, chains<=1 (open) / 0 (private), threaded duplex session" : "k=2, w=10, chains<=1 (open) / 0 (private)";
 	rep.finish();
 	return 0;
 }
